@@ -269,7 +269,9 @@ class Analyzer:
         sd = irq.strip_ret(dc)
         if PASS_THROUGH.search(dc):
             return
-        params = irq.param_list(dc)
+        params = irq.param_list(sd)      # of the name without its return type (a function returning a function pointer nests two lists)
+        if params is None:
+            params = irq.param_list(dc)
         if params is None:
             params = []
         ops = list(ins.ops)
@@ -295,6 +297,12 @@ class Analyzer:
                 mutable = (ptype.endswith("&") or ptype.endswith("*")) and "const" not in ptype and not ptype.endswith("&&")
                 if ptype.endswith("&&"):
                     mutable = True
+                # references spelled inside the declarator: `R (*&)(A...)` (reference to a function pointer), `T (&)[N]`
+                m = re.search(r"\(\s*\*\s*(const\s*)?&\s*\)", ptype)
+                if m:
+                    mutable = m.group(1) is None
+                elif re.search(r"\(\s*&\s*\)\s*\[", ptype):
+                    mutable = "const" not in ptype.split("(")[0]
             if mutable:
                 eff.writes.append({"kind": "stdcall", "callee": sd[:900], "param": ptype, "prov": sh, "where": ins.where(), "fn": fn.dname, "chain": list(chain)})
 
